@@ -179,7 +179,22 @@ package guardiand
 //@   loop [range ids]#2:
 //@     invariant [one-line-per-missing] len(resp) == len(ids)
 
-// backfill over HTTP from other nodes: outside the property (not verified)
-//@ func (s *nodePrivilegedService) fetchMissing(ctx context.Context, nodes []string, c *http.Client, emitterChain vaa.ChainID, addr string, targetChain vaa.ChainID, seq uint64) (ok bool, err error)
-//@   assume-contract
-//@   modifies chan
+// backfill over HTTP from other nodes: what the peers answer is outside the property, but the
+// identifier that is asked for is not - it names exactly the stream and sequence the caller
+// passed (parameters are named by position: req*), in the order the public REST route expects
+//@ func (s *nodePrivilegedService) fetchMissing(ctx context.Context, nodes []string, c *http.Client, reqEmitterChain vaa.ChainID, reqAddr string, reqTargetChain vaa.ChainID, reqSeq uint64) (ok bool, err error)
+//@   props C12
+//@   requires s != nil
+//@   modifies *
+//@   at [call fmt.Sprintf]: assert [asks-for-the-requested-identifier] $arg0 == "%s/v1/signed_vaa/%d/%s/%d/%d" && $arg2 == reqEmitterChain && $arg3 == reqAddr && $arg4 == reqTargetChain && $arg5 == reqSeq
+
+// ---------------------------------------------------------------- callers of the outbound request queue (C17)
+
+// The admin RPC posts through PostObservationRequest and reports a full queue to the operator:
+// it neither waits for room nor sends on the queue itself.
+//@ func (s *nodePrivilegedService) SendObservationRequest(ctx context.Context, req *nodev1.SendObservationRequestRequest) (resp *nodev1.SendObservationRequestResponse, err error)
+//@   props C17
+//@   requires s != nil && req != nil
+//@   nonblocking
+//@   ensures [queued-or-refused-at-once] (err == nil && nsent(s.obsvReqSendC) == old(nsent(s.obsvReqSendC)) + 1 && lastsent(s.obsvReqSendC) == req.ObservationRequest) || (err != nil && nsent(s.obsvReqSendC) == old(nsent(s.obsvReqSendC)))
+//@   modifies chan:*gossipv1.ObservationRequest, fresh nodev1.SendObservationRequestResponse.*
